@@ -45,7 +45,7 @@ fn val_types(ch: &mut Ch, n: usize) -> Vec<ValType> {
 pub fn apply(m: &mut Module, ch: &mut Ch, n: usize) -> Vec<String> {
     let mut log = Vec::new();
     for i in 0..n {
-        let k = ch.below(12);
+        let k = ch.below(15);
         match k {
             0 => {
                 // add a function built with the builder, export it
@@ -212,6 +212,57 @@ pub fn apply(m: &mut Module, ch: &mut Ch, n: usize) -> Vec<String> {
                     if r.is_ok() {
                         log.push("replace-exported-func".into());
                     }
+                }
+            }
+            11 => {
+                // an imported table next to whatever tables exist
+                let ty = if ch.bool() { RefType::Funcref } else { RefType::Externref };
+                let (t, _) = m.add_import_table("edit", &format!("timp{}", i), false, 1, Some(3), ty);
+                if ch.bool() {
+                    m.exports.add(&format!("edit_it{}", i), t);
+                }
+                log.push("add-import-table".into());
+            }
+            12 => {
+                let (mem, _) = m.add_import_memory("edit", &format!("mimp{}", i), false, false, 1, Some(2), None);
+                if ch.bool() {
+                    m.exports.add(&format!("edit_im{}", i), mem);
+                }
+                log.push("add-import-memory".into());
+            }
+            13 => {
+                // a builder-made block with a parameter and a result at the
+                // start of a local function: i32.const; block [i32]->[i32]; drop
+                let locals: Vec<FunctionId> = m.funcs.iter_local().map(|(id, _)| id).collect();
+                if !locals.is_empty() {
+                    let f = *ch.pick(&locals);
+                    let (np, nr) = *ch.pick(&[(1usize, 1usize), (2, 1), (1, 2), (0, 2)]);
+                    let ty = InstrSeqType::new(&mut m.types, &vec![ValType::I32; np], &vec![ValType::I32; nr]);
+                    let lf = m.funcs.get_mut(f).kind.unwrap_local_mut();
+                    let mut b = lf.builder_mut().func_body();
+                    let mut at = 0;
+                    for k in 0..np {
+                        b.const_at(at, Value::I32(0x77aa00 + k as i32));
+                        at += 1;
+                    }
+                    b.block_at(at, ty, |bb| {
+                        // np values in, nr values out
+                        let mut have = np;
+                        while have > nr {
+                            bb.drop();
+                            have -= 1;
+                        }
+                        while have < nr {
+                            bb.i32_const(7);
+                            have += 1;
+                        }
+                    });
+                    at += 1;
+                    for _ in 0..nr {
+                        b.drop_at(at);
+                        at += 1;
+                    }
+                    log.push(format!("insert-multi-value-block({}p,{}r)", np, nr));
                 }
             }
             _ => {
